@@ -41,7 +41,7 @@ P = {
          "Independent of any key table: fails exactly when the two directions disagree. All 8 configurations."),
  "C16": ("exploration", "differential testing across builds: one seed-determined corpus (feature-independent members) executed by the 8 wire configurations and the all-features+arbitrary build; transcripts compared line for line; plus generated per-member probe crates (tools/lite.py: one module per member, members absent from a configuration drop out, the rest compared across configurations) that still decide when the harness cannot be built for a configuration",
          "Sampled corpus (same in every configuration by construction); a feature that renumbers/renames/reorders a common member changes some transcript line or some member probe."),
- "C17": ("exploration", "capacity-frontier enumeration: Response::serialize::<N> instantiated for ~580 capacities; body tuned so that N - M in -2..+2; three prior buffer states; oracle = complete message iff it fits else [0x7f]",
+ "C17": ("exploration", "capacity-frontier enumeration: Response::serialize::<N> instantiated for ~580 capacities; body tuned so that N - M in -2..+2; every tunable member on every CBOR head-width boundary x every offset; three prior buffer states; oracle = complete message iff it fits else [0x7f]",
          "Every kind x every presence prefix x every instantiated capacity; contents sampled. Capacities are const generics, so the list is fixed at build time."),
  "C18": ("exploration", "exhaustive table enumeration: every spelling and its complete one-edit neighbourhood against every string enumeration; all 256 byte values, head-width thresholds and negatives against every numeric enumeration (the U2F control byte also as P1 of the authenticate APDU); full status/permission/variant tables",
          "Complete over the enumerated neighbourhoods; random strings/numbers in addition."),
